@@ -56,6 +56,8 @@ pub enum SendAnswer {
     Ok,
     Err,
     PendingOnce,
+    /// the datagram leaves at once but send_to completes only after this many (virtual) ms
+    Stall(u64),
 }
 
 struct Inbox {
@@ -75,6 +77,10 @@ pub struct NetInner {
     send_plan: HashMap<(SocketAddr, usize), SendAnswer>,
     /// destinations towards which every send fails (host unreachable)
     fail_dst: Vec<SocketAddr>,
+    /// destinations towards which every send fails from the given instant (ms) on
+    fail_dst_from: Vec<(SocketAddr, u64)>,
+    /// a send towards this destination (first one at or after the instant) stalls for the given ms
+    stall_dst: Vec<(SocketAddr, u64, u64)>,
     /// every send_to of a real node takes this long (virtual ms) before it completes
     send_delay_ms: u64,
 }
@@ -122,6 +128,14 @@ impl SocketTrait for SimSocket {
             if n.fail_dst.contains(target) {
                 answer = SendAnswer::Err;
             }
+            let now = n.now_ms();
+            if n.fail_dst_from.iter().any(|(a, t)| a == target && now >= *t) {
+                answer = SendAnswer::Err;
+            }
+            if let Some(i) = n.stall_dst.iter().position(|(a, t, _)| a == target && now >= *t) {
+                let (_, _, ms) = n.stall_dst.remove(i);
+                answer = SendAnswer::Stall(ms);
+            }
             if answer != SendAnswer::Err {
                 let seq = n.log.len();
                 let sent_ms = n.now_ms();
@@ -150,6 +164,10 @@ impl SocketTrait for SimSocket {
             SendAnswer::Err => Err(io::Error::other("simulated send failure")),
             SendAnswer::PendingOnce => {
                 tokio::task::yield_now().await;
+                Ok(())
+            }
+            SendAnswer::Stall(ms) => {
+                tokio::time::sleep(Duration::from_millis(ms)).await;
                 Ok(())
             }
         }
@@ -298,6 +316,10 @@ pub struct Scenario {
     pub inject_menu: usize,
     /// every send_to towards one of these addresses fails
     pub fail_dst: Vec<SocketAddr>,
+    /// every send_to towards the address fails from the instant (ms) on
+    pub fail_dst_from: Vec<(SocketAddr, u64)>,
+    /// the first send_to towards the address at or after the instant completes only after the given ms
+    pub stall_dst: Vec<(SocketAddr, u64, u64)>,
     /// every send_to of a real node takes this long (virtual ms)
     pub send_delay_ms: u64,
     /// datagrams sent by this address within [from, to) are lost (an outage of its uplink)
@@ -322,6 +344,8 @@ impl Scenario {
             injector: None,
             inject_menu: 0,
             fail_dst: vec![],
+            fail_dst_from: vec![],
+            stall_dst: vec![],
             send_delay_ms: 0,
             blackhole: vec![],
         }
@@ -431,6 +455,8 @@ async fn run_inner(sc: &Scenario, mut peers: Vec<Box<dyn Peer>>, chooser: &mut d
             send_calls: HashMap::new(),
             send_plan: sc.send_plan.iter().map(|(n, k, a)| ((sc.nodes[*n].addr, *k), *a)).collect(),
             fail_dst: sc.fail_dst.clone(),
+            fail_dst_from: sc.fail_dst_from.clone(),
+            stall_dst: sc.stall_dst.clone(),
             send_delay_ms: sc.send_delay_ms,
         })),
         notify: Arc::new(Notify::new()),
